@@ -393,6 +393,7 @@ def run(prop, ctx, log):
     try:
         fns = load_functions(os.environ.get("VERIF_REPO", "/repo"), scratch)
         thorough = ctx["tier"] == "thorough"
+        M.TLIMIT = 900 if thorough else 120
         out = []
         if prop == "C18":
             out += c18_queries(fns, 2, log)
